@@ -61,6 +61,24 @@ def Shp.okB (sh : Shp) : Bool :=
   (sh.hasVector == (sh.nd == 5)) &&
   (sh.nd != 4 || sh.T != 1)
 
+/-- run per-key computations in order: the first exception wins; keys whose result is "absent"
+    are left out -/
+def Res.collect {β : Type} : List (Res (Option β)) → Res (List β)
+  | [] => .ok []
+  | r :: rs =>
+    match r with
+    | .ok ob =>
+      (match Res.collect rs with
+       | .ok l => .ok (match ob with | some b => b :: l | none => l)
+       | .valueError => .valueError
+       | .indexError => .indexError
+       | .otherError => .otherError
+       | .skip w => .skip w)
+    | .valueError => .valueError
+    | .indexError => .indexError
+    | .otherError => .otherError
+    | .skip w => .skip w
+
 namespace DExt
 variable {κ α : Type} [DecidableEq κ] [DecidableEq α]
 
@@ -79,7 +97,7 @@ def shp (e : DExt κ α) (sdArg : Option Nat := none) : Shp :=
 
 /-- `get_values_and_class(key)` -/
 def key (e : DExt κ α) (k : κ) : KeyState α :=
-  (e.ents.find? fun x => x.1 == k && decide (x.2.1 ∈ validClasses e.shp)).map fun x => x.2
+  (e.ents.find? fun x => x.1 == k).map fun x => x.2
 
 def keys (e : DExt κ α) : List κ := (e.ents.map (·.1)).eraseDups
 
@@ -101,6 +119,23 @@ def makeEmpty (shape : List Nat) (sd : Option Nat) : Res (DExt κ α) :=
 
 def subsetShape (shape : List Nat) (dim : Nat) : List Nat := trimTrailing (shape.set dim 1)
 
+/-- what `get_subset(dim, idx)` makes of one entry: per-key subset by axis, then
+    `result.get_class_dict(cls)[key] = …` (KeyError when the trimmed result lacks the base) -/
+def subsetEntry (null : α) (sh rsh : Shp) (sliceDim : Option Nat) (dim idx : Nat)
+    (x : κ × Cls × List α) : Res (Option (κ × Cls × List α)) :=
+  let out : Except Err (KeyState α) :=
+    if sliceDim = some dim then subsetSliceK null sh (some x.2) idx
+    else if dim < 3 then .ok (some x.2)
+    else if dim = 3 then subsetTimeK null sh (some x.2) idx
+    else subsetVecK null sh (some x.2) idx
+  match Res.ofExcept out with
+  | .ok (some v) => if basePresent rsh v.1 then .ok (some (x.1, v)) else .otherError
+  | .ok none => .ok none
+  | .valueError => .valueError
+  | .indexError => .indexError
+  | .otherError => .otherError
+  | .skip w => .skip w
+
 /-- `get_subset(dim, idx)` -/
 def getSubset (null : α) (e : DExt κ α) (dim idx : Nat) : Res (DExt κ α) :=
   if 5 ≤ dim then .valueError
@@ -109,23 +144,19 @@ def getSubset (null : α) (e : DExt κ α) (dim idx : Nat) : Res (DExt κ α) :=
     then .skip "parent with a singleton trailing axis (finding F23 region)"
   else if !e.validB then .skip "invalid parent"
   else if e.shape.getD dim 0 ≤ idx then .skip "index out of range"
-  else do
-    let sh := e.shp
-    let r0 ← makeEmpty (κ := κ) (α := α) (subsetShape e.shape dim) e.sliceDim
-    let step (x : κ × Cls × List α) : Res (Option (κ × Cls × List α)) :=
-      let out : Except Err (KeyState α) :=
-        if e.sliceDim = some dim then subsetSliceK null sh (some x.2) idx
-        else if dim < 3 then .ok (some x.2)
-        else if dim = 3 then subsetTimeK null sh (some x.2) idx
-        else subsetVecK null sh (some x.2) idx
-      (Res.ofExcept out).bind fun ks =>
-        match ks with
-        | some v =>
-          -- `result.get_class_dict(cls)[key] = …` : KeyError when the (trimmed) result lacks the base
-          if basePresent r0.shp v.1 then .ok (some (x.1, v)) else .otherError
-        | none => .ok none
-    let ents ← e.ents.mapM step
-    pure { r0 with ents := ents.filterMap id }
+  else
+    match makeEmpty (κ := κ) (α := α) (subsetShape e.shape dim) e.sliceDim with
+    | .ok r0 =>
+      (match Res.collect (e.ents.map (subsetEntry null e.shp r0.shp e.sliceDim dim idx)) with
+       | .ok ents => .ok { r0 with ents := ents }
+       | .valueError => .valueError
+       | .indexError => .indexError
+       | .otherError => .otherError
+       | .skip w => .skip w)
+    | .valueError => .valueError
+    | .indexError => .indexError
+    | .otherError => .otherError
+    | .skip w => .skip w
 
 /-- `filter_meta(filter_func)` for a filter that looks at the key only (as the regex filter does):
     every valid classification loses exactly the keys the filter returns true for -/
@@ -147,6 +178,40 @@ def sameGeom (a b : DExt κ α) : Bool :=
   a.shape == b.shape && a.sliceDim == b.sliceDim && a.hasTime == b.hasTime &&
   a.hasVector == b.hasVector
 
+/-- `from_sequence` restricted to one key: the per-key merge for the axis, then the final simplify
+    of a key that ended in global slices -/
+def mergeKey (null : α) (sh1 osh : Shp) (sd : Option Nat) (dim : Nat) (es : List (DExt κ α))
+    (use : List Bool) (k : κ) : Res (Option (κ × Cls × List α)) :=
+  let inputs := (es.zip use).map fun p => effKey p.1 p.2 k
+  let out : Except Err (KeyState α) :=
+    if sd = some dim then mergeSliceK null sh1 inputs
+    else if dim < 3 then
+      match inputs with
+      | [] => .error .other
+      | a :: tl =>
+        match foldNonSliceK null sh1 a tl with
+        | .error err => .error err
+        | .ok r => (match r with
+            | some (gslices, _) => applySimplify null sh1 r
+            | _ => .ok r)
+    else if dim = 3 then mergeTimeK null sh1 osh inputs
+    else mergeVecK null sh1 osh inputs
+  match Res.ofExcept out with
+  | .ok r => .ok (r.map fun v => (k, v))
+  | .valueError => .valueError
+  | .indexError => .indexError
+  | .otherError => .otherError
+  | .skip w => .skip w
+
+/-- `if slice_dim is None: slice_dim = first_input.slice_dim` -/
+def pickSd (sdArg : Option Nat) (first : DExt κ α) : Option Nat :=
+  match sdArg with
+  | some d => some d
+  | none => first.sliceDim
+
+def outShapeOf (first : DExt κ α) (dim n : Nat) : List Nat :=
+  (first.shape ++ List.replicate (dim + 1 - first.shape.length) 1).set dim n
+
 /-- `DcmMetaExtension.from_sequence(seq, dim, affine, slice_dim)`; `use[i]` is the outcome of the
     slice-normal comparison for input `i` (a float computation, supplied by the caller) -/
 def fromSequence (null : α) (es : List (DExt κ α)) (dim : Nat) (sdArg : Option Nat)
@@ -156,37 +221,27 @@ def fromSequence (null : α) (es : List (DExt κ α)) (dim : Nat) (sdArg : Optio
   | [] => .indexError
   | first :: rest =>
     if dim < first.shape.length ∧ first.shape.getD dim 1 ≠ 1 then .valueError
-    else do
-      let outShape := (first.shape ++ List.replicate (dim + 1 - first.shape.length) 1).set dim
-        es.length
-      let sd := match sdArg with | some d => some d | none => first.sliceDim
-      let r0 ← makeEmpty (κ := κ) (α := α) outShape sd
-      if !(rest.all (sameGeom first)) then .skip "inputs of different geometry" else
-      if !(es.all validB) then .skip "invalid input" else
-      if use.length ≠ es.length then .skip "bad use-slices vector" else
-      -- the result while it holds only the first input: merge axis has length 1
-      let r1 : DExt κ α := { r0 with shape := outShape.set dim 1 }
-      let sh1 := r1.shp
-      let osh := first.shp sd
-      let ks := (es.flatMap keys).eraseDups
-      let one (k : κ) : Res (Option (κ × Cls × List α)) :=
-        let inputs := (es.zip use).map fun p => effKey p.1 p.2 k
-        let out : Except Err (KeyState α) :=
-          if sd = some dim then mergeSliceK null sh1 inputs
-          else if dim < 3 then
-            match inputs with
-            | [] => .error .other
-            | a :: tl =>
-              match foldNonSliceK null sh1 a tl with
-              | .error err => .error err
-              | .ok r => (match r with
-                  | some (gslices, _) => applySimplify null sh1 r
-                  | _ => .ok r)
-          else if dim = 3 then mergeTimeK null sh1 osh inputs
-          else mergeVecK null sh1 osh inputs
-        (Res.ofExcept out).bind fun r => .ok (r.map fun v => (k, v))
-      let ents ← ks.mapM one
-      pure { r0 with ents := ents.filterMap id }
+    else
+      let outShape := outShapeOf first dim es.length
+      let sd := pickSd sdArg first
+      match makeEmpty (κ := κ) (α := α) outShape sd with
+      | .ok r0 =>
+        if !(rest.all (sameGeom first)) then .skip "inputs of different geometry" else
+        if !(es.all validB) then .skip "invalid input" else
+        if use.length ≠ es.length then .skip "bad use-slices vector" else
+        -- the result while it holds only the first input: merge axis has length 1
+        let sh1 := ({ r0 with shape := outShape.set dim 1 } : DExt κ α).shp
+        let osh := first.shp sd
+        (match Res.collect (((es.flatMap keys).eraseDups).map (mergeKey null sh1 osh sd dim es use)) with
+         | .ok ents => .ok { r0 with ents := ents }
+         | .valueError => .valueError
+         | .indexError => .indexError
+         | .otherError => .otherError
+         | .skip w => .skip w)
+      | .valueError => .valueError
+      | .indexError => .indexError
+      | .otherError => .otherError
+      | .skip w => .skip w
 
 /-- the hypotheses of the merge theorems hold for this call: valid inputs of one geometry and
     `Consistent` result shape for slice / non-slice spatial merges (`mergeSlice_lookup`,
@@ -196,9 +251,8 @@ def fromSequenceInDomain (es : List (DExt κ α)) (dim : Nat) (sdArg : Option Na
   match es with
   | [] => false
   | first :: rest =>
-    let outShape := (first.shape ++ List.replicate (dim + 1 - first.shape.length) 1).set dim
-      es.length
-    let sd := match sdArg with | some d => some d | none => first.sliceDim
+    let outShape := outShapeOf first dim es.length
+    let sd := pickSd sdArg first
     match makeEmpty (κ := κ) (α := α) outShape sd with
     | .ok r0 =>
       let sh1 := ({ r0 with shape := outShape.set dim 1 } : DExt κ α).shp
